@@ -63,7 +63,8 @@ def gen_unit(rng):
     ncols = rng.randint(1, 5)
     names = []
     for i in range(ncols):
-        names.append(rng.choice(["c%d" % i, "col %d" % i, "é%d" % i, 'q"%d' % i, "a,b%d" % i]) if not text else "c%d" % i)
+        # (a name is whatever follows the `=`, up to the end: blanks and other white space at its end belong to it)
+        names.append(rng.choice(["c%d" % i, "col %d" % i, "é%d" % i, 'q"%d' % i, "a,b%d" % i, "Total%d " % i, "\u00a0unit%d" % i, "x%d\u3000" % i, "t%d\t" % i]) if not text else "c%d" % i)
     if ncols >= 2 and rng.random() < 0.15:
         # two selections under one name are still two fields
         i, j = rng.sample(range(ncols), 2)
